@@ -110,4 +110,7 @@ func lockReport(e *exec, msg string) {
 }
 
 // AccOf is Acc for a typed pointer.
+// AccP reports a read of *p at the place of the read and hands p back (for reads that are evaluated conditionally).
+func AccP[T any](p *T, site string) *T { Acc(unsafe.Pointer(p), false, site); return p }
+
 func AccOf[T any](p *T, write bool, site string) { Acc(unsafe.Pointer(p), write, site) }
